@@ -28,6 +28,10 @@ CHECKS = {
    technique="runtime monitoring: controlled scheduling of concurrent merging writers; final values compared with the fold of the deltas in the recorded per-block apply order; replicas checked for the rewritten absolute values",
    text="Held on every executed interleaving: additive, order-sensitive (v*3+d) and concatenating merges end at the fold of all committed deltas in apply order, each exactly once.",
    note="E2 parks tasks only at lock-free hook points."),
+ "C10": dict(engine=E3, cat="exploration", ref="DESIGN.md 4/C10",
+   technique="runtime monitoring under real parallelism (race-detector build and plain build, micro-delays injected at commit hooks incl. inside the latch): per-row multi-column tag invariant asserted inside reader callbacks",
+   text="Held on every reader callback of every round (millions per run, about half of them overlapping a commit on the same block as counted at the hooks): the six redundant columns of the row always carried one committed tag, never a rolled-back one.",
+   note="Schedules are whatever 16 cores and the injected delays produce; nothing is enumerated."),
  "C11": dict(e1("Held on every insert of every history (offset free in the model and not reserved in the same transaction), on every dump (Range/Count/Txn.Count equal the live set; cells of reused offsets carry only what the insert stored), except the recorded finding KF-WRITE-THEN-DELETE-ORPHAN (directed probe)."), ref="DESIGN.md 4/C11"),
  "C12": dict(e1("Held on every key operation (return value vs the model's key table at issue time) and every dump grouped by key; two-transaction creating races are enumerated under the controlled scheduler at the key.afterCheck hook - the recorded finding KF-KEY-CHECK-THEN-ACT is attributed only when two creating operations both succeeded."), ref="DESIGN.md 4/C12"),
  "C13": dict(engine="E5 crash-point enumerator", cat="fault_enumeration", ref="DESIGN.md 4/C13",
@@ -43,6 +47,14 @@ CHECKS = {
    text="Held on every executed interleaving and history: one commit per changed block per committed transaction, none for rolled-back/no-op ones, IDs non-zero, distinct and increasing per block in arrival order; the channel delivers the same (ID, block) sequence.",
    note="E2 parks tasks only at lock-free hook points."),
  "C16": dict(e1("Held on every dump and every filtered Ascend: the callback sequence is a permutation of the selected rows holding a value, in non-decreasing order of the values read at the callbacks (6-string alphabet forcing duplicates)."), ref="DESIGN.md 4/C16"),
+ "C17": dict(engine="E7 TTL monitor", cat="exploration", ref="DESIGN.md 4/C17",
+   technique="runtime monitoring of the real cleanup goroutine (1/5/20 ms intervals) beside writers: clock-free safety oracle for rows that must live, liveness bounded in vacuum passes counted at a hook, exact deadline comparison after restore/replay",
+   text="Held on every observation of every case: rows without TTL or with far deadlines were always present, short-lived rows were never removed ahead of their deadline and were gone within 5 passes that started after it, deadlines were stored exactly and survived snapshot/restore and stream replay.",
+   note="Wall clock assumed not to step backwards by more than 20 ms; verdicts on rows whose deadline was moved close to the old one are withheld."),
+ "C18": dict(engine=E3, cat="exploration", ref="DESIGN.md 4/C18",
+   technique="Go race detector (halt_on_error=0, log_path) over six repeated parallel workload mixes with injected delays; reports de-duplicated by function pair and classified by exact stack signature; watchdog + goroutine-dump classification for termination",
+   text="Held = no race report other than the two recorded findings (KF-RACE-GROW, KF-RACE-ENUM-DATA, matched by exact stack signature) and every round terminated; E2's serialized schedules (C06/C08/C09/C15/C12 checks) double as deadlock probes.",
+   note="The race detector reports only races that the executed schedules make observable."),
  "C19": dict(e1("Held on every transaction of the histories: per row the trigger callback log equals the model's committed stores (after merge) and row deletions, nothing for rolled-back transactions or dropped triggers; recorded finding KF-VARLEN-MERGE-REORDER via directed probe."), ref="DESIGN.md 4/C19"),
 }
 NOT_BUILT = {}
